@@ -35,7 +35,7 @@ def bounds(tier):
 
 
 def goals(tier):
-    return ["three-modules", "records-sharing-an-id", "identical-sequence-twins", "product", "error-InvalidSequence", "error-DuplicateModules", "error-MissingModule", "palindromic-start-on-chain",
+    return ["three-modules", "records-sharing-an-id", "annotated-participants", "identical-sequence-twins", "product", "error-InvalidSequence", "error-DuplicateModules", "error-MissingModule", "palindromic-start-on-chain",
             "self-loop-module", "unused-module", "revcomp-starts", "equal-starts", "several-reasons"]
 
 
@@ -130,7 +130,10 @@ def evaluate(st, scn):
     M, V = gen.generic_classes(enz)
     idmode = scn.get("ids", "distinct")
     v = V(gen.crec(vs[0], "vec"))
-    if idmode == "distinct":
+    if idmode == "decorated":
+        v = V(gen.crec(vs[0], "vec", features=gen.decorations(len(vs[0]))))
+        ents = [M(gen.crec(m[0], "mod%d" % i, features=gen.decorations(len(m[0])))) for i, m in enumerate(ms)]
+    elif idmode == "distinct":
         ents = [M(gen.crec(m[0], "mod%d" % i)) for i, m in enumerate(ms)]
     elif idmode == "same":
         ents = [M(gen.crec(m[0], "part")) for i, m in enumerate(ms)]          # e.g. variants filed under one accession
@@ -189,7 +192,9 @@ def evaluate(st, scn):
 def idmodes(sp, k):
     """identifier assignments of the module records: distinct ids everywhere; for the k<=2 spaces also one shared id and no id at all"""
     if sp["kmax"] <= 2 and k >= 2:
-        return ["distinct", "same", "default", "twins"]
+        return ["distinct", "same", "default", "decorated", "twins"]
+    if sp["kmax"] <= 2:
+        return ["distinct", "decorated"]
     if k >= 2:
         return ["distinct", "twins"]
     return ["distinct"]
@@ -212,6 +217,9 @@ def run_unit(unit, st, tier):
                         continue
                     scn["twins"] = "identical"
                     st.goal("identical-sequence-twins")
+                elif idmode == "decorated":
+                    scn["ids"] = idmode
+                    st.goal("annotated-participants")
                 elif idmode != "distinct":
                     scn["ids"] = idmode
                     st.goal("records-sharing-an-id")
